@@ -262,6 +262,30 @@ def run(ctx):
     ctx.sample({'random_pair': rp[0], 'impl_bits': results[0][0]})
     ctx.add_rule('%d seeded random pairs built from atoms (prefixes, quotes, ANSI, <BLANKLINE>, CR, dots); got derived from want by inverse leniencies and single mutations' % n)
 
+    # ---- repetition: every special token many times (regex calls with a count / maxsplit limit show only here) ----
+    reps = []
+    for n_rep in ((9, 12, 33) if quick else (9, 10, 12, 17, 33, 65, 130)):
+        lines = ['l%d' % i for i in range(n_rep)]
+        reps.append(('\n\n'.join(lines), ('\n' + B + '\n').join(lines)))                     # <BLANKLINE> markers
+        reps.append(('\n'.join(lines + [B] * 2), '\n'.join(lines + [B] * 2)))
+        reps.append((''.join('\x1b[3%dm%s\x1b[0m ' % (i % 8, l) for i, l in enumerate(lines)), ' '.join(lines) + ' '))   # ANSI
+        reps.append(('\n'.join(l + ' \t' for l in lines), '\n'.join(lines)))                  # trailing whitespace per line
+        reps.append((' '.join(lines), '  \t '.join(lines)))                                   # runs of whitespace
+        reps.append((' '.join(l + ' zz' for l in lines), ' ... '.join(lines) + ' ...'))        # wildcards
+        reps.append((' '.join(l + ' zz' for l in lines[:-1]), ' ... '.join(lines)))            # ... one piece missing
+        reps.append(('\r\n'.join(lines), '\n'.join(lines)))                                    # carriage returns
+        reps.append((', '.join("'%s'" % l for l in lines), ', '.join('"%s"' % l for l in lines)))   # quotes
+        reps.append((', '.join("u'%s'" % l for l in lines), ', '.join("'%s'" % l for l in lines)))  # prefixes
+        reps.append(('[' + ',\n '.join(lines) + ']', '[' + ', '.join(lines) + ']'))
+        reps.append((B.join(lines), B.join(lines)))
+        reps.append(('\n'.join(lines[:-1] + [B]), ('\n' + B + '\n').join(lines)))             # literal marker in got where the last marker stands
+    results = [r for ch in common.pmap(_pairs_worker, [reps[i:i + 20] for i in range(0, len(reps), 20)]) for r in ch]
+    analyse(ctx, reps, results, 'repetition')
+    ctx.evaluations += len(reps) * 32
+    ctx.nontrivial += len(reps) * 32
+    ctx.count('repetition_pairs', len(reps))
+    ctx.add_rule('%d pairs in which every special token (<BLANKLINE>, ANSI escapes, trailing blanks, blank runs, wildcards, CR, quotes, string prefixes) occurs 9..33/130 times' % len(reps))
+
     # ---- strict exactness, directly on the implementation (independent of the model) ----
     st = runstate(16)     # all leniencies off, DONT_ACCEPT_BLANKLINE on
     ns = 0
